@@ -106,46 +106,30 @@ theorem reverse_num_antitone (a b : Rat) : a ≤ b ↔ reverseNum b ≤ reverseN
 
 example : reverseNum 2 = -2 := by rw [reverseNum, Rat.mul_neg, Rat.mul_one]
 
-/-- `_reverse_str` (code point c ↦ 255 - c) reverses the order of two strings over code points < 256
-**provided neither is a proper prefix of the other**. -/
-theorem reverse_str_antitone_partial (s t : List Nat) (hs : ∀ c ∈ s, c < 256) (ht : ∀ c ∈ t, c < 256)
-    (h1 : ¬ ProperPrefix s t) (h2 : ¬ ProperPrefix t s) :
-    natLexLe (reverseStr s) (reverseStr t) = natLexLe t s :=
-  reverseStr_antitone' s t hs ht h1 h2
+/-- Reversal of a non-numeric key column (str, bool, …) by negated dense ranks
+(`numpy.unique(col, return_inverse=True)`, the code since the repair of `_reverse_str`): for ALL
+values `x`, `y` occurring in the column — including strings one of which is a prefix of the other —
+the transformed fields compare in exactly the opposite order.  (This is the former FULL STATEMENT
+`reverse_str_antitone`, which was false for the character-translation trick.) -/
+theorem reverse_str_antitone (D : List SKey) (x y : SKey) (hx : x ∈ D) (hy : y ∈ D) :
+    SKey.le (.num (-((denseRank SKey.le D x : Nat) : Rat))) (.num (-((denseRank SKey.le D y : Nat) : Rat)))
+      = SKey.le y x :=
+  reverseRank_antitone' D x y hx hy
 
-example : ¬ ProperPrefix [97, 98] [98] ∧ ¬ ProperPrefix [98] [97, 98] := by
-  constructor <;> rintro ⟨u, _, h⟩ <;> simp at h
+-- 'a' < 'ab' < 'b' get ranks 0, 1, 2 (the former counterexample)
+example : [SKey.str [97], .str [97, 98], .str [98]].map
+    (denseRank SKey.le [SKey.str [98], .str [97], .str [97, 98]]) = [0, 1, 2] := by decide
 
-/- FULL STATEMENT (not proved): `∀ s t, (∀ c ∈ s, c < 256) → (∀ c ∈ t, c < 256) →
-   natLexLe (reverseStr s) (reverseStr t) = natLexLe t s` — i.e. the character translation is an
-   order reversal on all strings, which is what `Table.sorted(reverse=...)` needs to be a descending
-   sort.  It is FALSE: a proper prefix sorts first before *and* after the translation
-   (`reverse_str_counter`), so 'a','ab','b' reverse-sorts to b,a,ab.  Recorded as the known finding
-   C20-sorted-reverse-str-prefix (replayed on the real code on every run). -/
+/-- `sorted(reverse=<one non-numeric column>)` is a descending sort of the rows, for ALL column stores
+(no prefix-freeness hypothesis any more). -/
+theorem sorted_reverse_descending {α : Type} (dflt : α) (keyOf : List α → SKey) (cols : List (List α)) :
+    let D := setOfList [] ((rowsOf dflt cols).map keyOf)
+    (rowsOf dflt (sortedCols dflt lexLe
+        (fun r => [SKey.num (-((denseRank SKey.le D (keyOf r) : Nat) : Rat))]) cols)).Pairwise
+      (fun r s => SKey.le (keyOf s) (keyOf r) = true) :=
+  sorted_reverse_descending' dflt keyOf cols
 
-/-- the witness: "a" ≤ "ab", but after the translation "ab" does not come before "a" -/
-theorem reverse_str_counter :
-    natLexLe [97] [97, 98] = true ∧ natLexLe (reverseStr [97, 98]) (reverseStr [97]) = false := by decide
-
-/-- … hence `sorted(reverse=<one str column>)` IS a descending sort of the rows whenever no key is a
-proper prefix of another (code points < 256): this is the part of the unrestricted claim that holds. -/
-theorem sorted_reverse_str_descending_partial {α : Type} (dflt : α) (strOf : List α → List Nat)
-    (cols : List (List α))
-    (hc : ∀ r ∈ rowsOf dflt cols, ∀ c ∈ strOf r, c < 256)
-    (hp : ∀ r ∈ rowsOf dflt cols, ∀ s ∈ rowsOf dflt cols, ¬ ProperPrefix (strOf r) (strOf s)) :
-    (rowsOf dflt (sortedCols dflt lexLe (fun r => [SKey.str (reverseStr (strOf r))]) cols)).Pairwise
-      (fun r s => natLexLe (strOf s) (strOf r) = true) :=
-  sorted_reverse_str_descending' dflt strOf cols hc hp
-
-example : ∀ r ∈ rowsOf 0 [[97, 98]], ∀ s ∈ rowsOf 0 [[97, 98]], ¬ ProperPrefix (id r) (id s) := by
-  have e1 : rowsOf 0 [[97, 98]] = [[97], [98]] := by decide
-  rw [e1]
-  intro r hr s hs ⟨u, hu, h⟩
-  simp only [List.mem_cons, List.mem_nil_iff, or_false] at hr hs
-  rcases hr with rfl | rfl <;> rcases hs with rfl | rfl <;> simp at h <;> exact hu h
-
-/- FULL STATEMENT (not proved): the same conclusion without `hp` (descending order for ALL string
-   columns).  False for the code as written, see `reverse_str_counter`. -/
+example : SKey.le (.str [97]) (.str [97, 98]) = true ∧ SKey.le (.bool false) (.bool true) = true := by decide
 
 /-! ## row-wise operations -/
 
